@@ -86,12 +86,15 @@ def h_counter(counter: bytes, storage: str) -> None:
 OID_SELECT = [3, 254, 255, 256, 0xffff, 0x10000, 2 ** 32 - 1, 2 ** 32, 2 ** 48 + 5, 2 ** 56 - 1, 2 ** 63 + 1]
 
 
-def h_stored_oid(o: bytes, sel: int, sel2: int, storage: str, via: str, reopen: bool, oshape: str) -> None:
+def h_stored_oid(o: bytes, sel: int, sel2: int, storage: str, via: str, reopen: bool, oshape: str, mid: bool = False, pack: bool = False) -> None:
     """A record stored / restored with an arbitrary id raises the counter: no later new_oid returns it
     (or any id already present), also after close and reopen.
     oshape 'free': the id is 8 free bytes; 'select': a solver-chosen element of OID_SELECT (used where
-    the id has to pass through code that hashes or re-parses it, which would enumerate values)."""
+    the id has to pass through code that hashes or re-parses it, which would enumerate values).
+    mid: another client draws an id while the copying transaction is still in flight (after its store).
+    pack: the storage is packed (really rewritten) between two of the later allocations."""
     extra = None
+    assume(not (pack and (reopen or oshape != 'select' or storage != 'file')))
     if oshape == 'select':
         assume(len(o) == 0)
         o = OID_SELECT[choose(sel, len(OID_SELECT))].to_bytes(8, 'big')
@@ -110,6 +113,8 @@ def h_stored_oid(o: bytes, sel: int, sel2: int, storage: str, via: str, reopen: 
         s = _storage(storage, env)
         h = T.Hist(s)
         h.commit([(T.oid(1), b'a'), (T.oid(2), b'b')] + ([(extra, b'x')] if extra is not None else []))
+        if pack:
+            h.commit([(T.oid(1), b'a-again')])      # something for the pack to remove
         first = s.new_oid()                # allocation before the foreign record arrives
     t = T.meta(b'copy')
     tid = None
@@ -123,14 +128,25 @@ def h_stored_oid(o: bytes, sel: int, sel2: int, storage: str, via: str, reopen: 
         # store of a new object under a caller-chosen id (what copyTransactionsFrom does without restore())
         assume(o != T.oid(1) and o != T.oid(2))
         s.store(o, serial, b'copied-in', '', t)
+    drawn = []
+    if mid:
+        n_mid = s.new_oid()
+        check(n_mid != o, 'new_oid returned the id of a record that a transaction in flight has stored', o, n_mid)
+        check(n_mid != first, 'new_oid returned an id already issued', n_mid)
+        drawn.append(n_mid)
     s.tpc_vote(t)
     s.tpc_finish(t)
     if reopen:
         s.close()
         s = _storage('file', env)
     present = [T.oid(1), T.oid(2), o] + ([extra] if extra is not None else [])
-    issued = [] if reopen else [first]
+    issued = [] if reopen else [first] + drawn
     for i in range(3):
+        if pack and i == 1:
+            with untraced():
+                size0 = len(env.fs.content('/db/Data.fs'))
+                s.pack(env.clock.time(), lambda p: [], gc=False)
+                check(len(env.fs.content('/db/Data.fs')) < size0, 'harness: the pack did not rewrite the file')
         n = s.new_oid()
         check(n != o, 'new_oid returned the id of a record that was copied in', o, n)
         check(n not in present and n not in issued, 'new_oid returned an id that is present or already issued', n)
@@ -295,7 +311,7 @@ HARNESSES = [
     Harness('stored_oid', h_stored_oid,
             decides='after a record with an arbitrary id was stored or restored (and after reopen), new_oid never returns '
                     'that id, a present id, or an id issued earlier in the session',
-            symbolic='oid of the copied-in record: 8 free bytes (oshape free) or a solver-chosen element of 11 boundary ids (oshape select)', bounds='2 existing objects + 1 copied-in; 3 allocations',
+            symbolic='oid of the copied-in record: 8 free bytes (oshape free) or a solver-chosen element of 11 boundary ids (oshape select)', bounds='2 existing objects + 1 copied-in; 3 allocations (+1 while the copying transaction is in flight); optionally a pack between them',
             oracle='set difference', pure_python=True,
             code=['FileStorage.store/restore (set_max_oid)', 'BaseStorage.set_max_oid/new_oid', 'MappingStorage.store/new_oid',
                   'read_index maxoid'],
@@ -304,14 +320,17 @@ HARNESSES = [
                                             dict(storage='file', via='restore', reopen=True, oshape='select'),
                                             dict(storage='file', via='store', reopen=True, oshape='select'),
                                             dict(storage='mapping', via='store', reopen=False, oshape='select'),
-                                            dict(storage='mapping', via='store', reopen=False, oshape='free', _timeout=40)]),
+                                            dict(storage='mapping', via='store', reopen=False, oshape='free', _timeout=40),
+                                            dict(storage='file', via='store', reopen=False, oshape='select', pack=True)]),
             thorough=dict(timeout=600, shards=[dict(storage='file', via='store', reopen=False, oshape='free'),
                                                dict(storage='file', via='restore', reopen=False, oshape='free'),
                                                dict(storage='file', via='restore', reopen=True, oshape='select'),
                                                dict(storage='file', via='store', reopen=True, oshape='select'),
                                                dict(storage='file', via='restore', reopen=True, oshape='free'),
                                                dict(storage='mapping', via='store', reopen=False, oshape='select'),
-                                               dict(storage='mapping', via='store', reopen=False, oshape='free')])),
+                                               dict(storage='mapping', via='store', reopen=False, oshape='free'),
+                                               dict(storage='file', via='store', reopen=False, oshape='select', pack=True),
+                                               dict(storage='file', via='restore', reopen=False, oshape='select', pack=True)])),
     Harness('demo', h_demo,
             decides='DemoStorage.new_oid never returns an id present in base or changes, or issued before, whatever the random draws',
             symbolic='3 random draws (ints in a +-6 window around all ids present/issued)',
